@@ -8,7 +8,8 @@ import mdgen as M
 
 def gen_history(rng, n):
     """an evolving honest chain interleaved with adversarial offers; returns (T0, offers, tags)"""
-    keys, th, ver = (0, 1), rng.choice((1, 2, 2)), 1
+    # some chains start at a large version (date serials, counters past 2^31 / 2^53): 'exactly plus one' must not soften with magnitude
+    keys, th, ver = (0, 1), rng.choice((1, 2, 2)), rng.choice((1, 1, 1, 3, 2026100200, 4 * 10 ** 9, 10 ** 12, 2 ** 53 - 5, 10 ** 30))
     # some chains carry, next to "root", delegations whose names merely resemble it (file-name forms); their keys are NOT root keys
     alias = rng.choice([None, None, "root.json", "1.root.json", "Root"])
     alias_keys = (3,)
